@@ -29,6 +29,8 @@ func runC06(p *Prog, r *Report) {
 	c06R2(p, r, "C06.R2")
 	c06R3(p, r)
 	c06R4(p, r)
+	indexRule(p, r, "C06.R5")
+	assignabilityRule(p, r, "C06.R6")
 }
 
 func c06R1(p *Prog, r *Report) {
